@@ -1,4 +1,7 @@
 import Pycoin.Proofs.Base58
+import Pycoin.Proofs.Bech32Poly
+import Pycoin.Proofs.ConvertBits
+import Pycoin.Proofs.Bech32Str
 /-!
 C11 — Base58, Base58Check and Bech32/Bech32m codecs are exact and detect corruption.
 Property theorems (Base58 half; the Bech32 half is in the second part of this file).
@@ -274,3 +277,343 @@ theorem C11_parse_b58_agrees (s : Bytes) :
 #guard a2bHashed [49] matches .error .encodingError
 
 end Pycoin.Base58
+
+/-! # Bech32 / Bech32m -/
+namespace Pycoin.Bech32
+open Pycoin.Gen.Codecs
+
+/-- the literals of `bech32_polymod` in the source are the ones the model uses; the generator has the five words
+the `range(5)` loop reads; the two constants differ -/
+theorem C11_bech32_tables :
+    polymodStart = 1 ∧ polymodTopShift = 25 ∧ polymodMask = 0x1FFFFFF ∧ polymodSymShift = 5 ∧
+    polymodRange = 5 ∧ bech32Generator.length = 5 ∧ bech32mConst ≠ 1 ∧ bech32mConst < 2 ^ 30 ∧
+    bech32Charset.length = 32 ∧ bech32Charset.Nodup ∧ bech32MaxLength = 90 ∧ encBech32 ≠ encBech32m := by
+  decide +kernel
+
+/-- **linearity of `bech32_polymod` over GF(2)**: running the rounds on the xor of two start values and the
+symbol-wise xor of two equally long sequences gives the xor of the two results (any generator words). -/
+theorem C11_bech32_polymod_linear (xs ys : List Nat) (h : xs.length = ys.length) (a b : Nat) :
+    (List.zipWith (· ^^^ ·) xs ys).foldl polymodStep (a ^^^ b) =
+      xs.foldl polymodStep a ^^^ ys.foldl polymodStep b :=
+  foldl_polymodStep_xor xs ys h a b
+
+/-- **bech32_checksum_ok.** For every hrp (any code points), every data list (any non-negative integers) and both
+encodings: `bech32_verify_checksum(hrp, data + bech32_create_checksum(hrp, data, spec)) == spec`. -/
+theorem C11_bech32_checksum_ok (hrp : List Char) (data : List Nat) (spec : Encoding) :
+    verifyChecksum hrp (data ++ createChecksum hrp data spec) = some spec := by
+  unfold verifyChecksum
+  simp only [polymod_with_checksum]
+  have hne : bech32mConst ≠ 1 := by decide
+  cases spec <;> simp [specConst, hne]
+
+/-- the checksum is the *only* six-symbol suffix accepted for that encoding: if `data ++ l` verifies as `spec`
+with `l` six symbols below 32, then `l` is `bech32_create_checksum(hrp, data, spec)` -/
+theorem C11_bech32_checksum_unique (hrp : List Char) (data l : List Nat) (spec : Encoding) (hl : l.length = 6)
+    (hlt : ∀ x ∈ l, x < 32) (h : verifyChecksum hrp (data ++ l) = some spec) :
+    l = createChecksum hrp data spec := by
+  apply checksum_unique hrp data l spec hl hlt
+  unfold verifyChecksum at h
+  have hne : bech32mConst ≠ 1 := by decide
+  simp only at h
+  split at h
+  · rename_i h1
+    injection h with h; subst h; exact h1
+  · split at h
+    · rename_i h1 h2
+      injection h with h; subst h; exact h2
+    · cases h
+
+/-! ## convertbits -/
+
+/-- **convertbits_rt.** For every byte list: `convertbits(data, 8, 5, True)` succeeds with 5-bit groups and
+`convertbits(_, 5, 8, False)` of the result is the original byte list. -/
+theorem C11_convertbits_rt (data : List Nat) (hd : ∀ x ∈ data, x < 256) :
+    ∃ R, convertbits data 8 5 pos5 true = some R ∧ (∀ r ∈ R, r < 32) ∧
+      R.length = (data.length * 8 + 4) / 5 ∧ convertbits R 5 8 pos8 false = some data :=
+  convertbits_8_5_8 data hd
+
+/-- the other direction: whenever 5→8 without padding succeeds, 8→5 with padding returns the original groups
+(so the 5-bit form of a byte string is unique) -/
+theorem C11_convertbits_rt_conv (data R : List Nat) (h : convertbits data 5 8 pos8 false = some R) :
+    (∀ r ∈ R, r < 256) ∧ R.length = data.length * 5 / 8 ∧ convertbits R 8 5 pos5 true = some data := by
+  have := convertbits_5_8_5 data R h
+  exact ⟨this.1, this.2.1, this.2.2.2⟩
+
+/-- a value that does not fit in `frombits` bits is refused -/
+theorem C11_convertbits_range (data : List Nat) (f t : Nat) (ht : 0 < t) (pad : Bool)
+    (h : ∃ x ∈ data, 2 ^ f ≤ x) : convertbits data f t ht pad = none :=
+  convertbits_none_of_big f t ht data pad h
+
+/-! ## bech32_encode / bech32_decode -/
+
+/-- `bech32_decode(bech32_encode(hrp, data, spec)) = (hrp, data, spec)` for every non-empty lower-case hrp over
+33..126, data symbols below 32, total length at most 90 -/
+theorem C11_bech32_rt (hrp : List Char) (data : List Nat) (spec : Encoding)
+    (hne : hrp ≠ []) (hh : ∀ c ∈ hrp, hrpCharOk c = true) (hd : ∀ d ∈ data, d < 32)
+    (hlen : hrp.length + 1 + data.length + 6 ≤ 90) :
+    ∃ s, bech32Encode hrp data spec = .ok s ∧ bech32Decode s = some (hrp, data, spec) :=
+  ⟨_, bech32Encode_eq hrp data spec hd, bech32Decode_encode hrp data spec hne hh hd hlen⟩
+
+/-- every accepted string is, up to case, the encoding of what was returned: the decoder accepts nothing but
+`bech32_encode` outputs (written in one case) -/
+theorem C11_bech32_rt_conv (t hrp : List Char) (data : List Nat) (spec : Encoding)
+    (h : bech32Decode t = some (hrp, data, spec)) :
+    bech32Encode hrp data spec = .ok (lower t) ∧ (lower t = t ∨ upper t = t) ∧ t.length ≤ 90 := by
+  obtain ⟨_, hcase, hlen, _, _, hd, _, heq⟩ := bech32Decode_some t hrp data spec h
+  exact ⟨by rw [bech32Encode_eq hrp data spec hd, heq], hcase, hlen⟩
+
+/-! ## segwit addresses -/
+
+/-- what BIP173/BIP350 allow: non-empty hrp over code points 33..126 without upper-case letters, witness version
+0..16, a program of 2..40 bytes (20 or 32 for version 0), and a resulting address of at most 90 characters -/
+def Allowed (hrp : List Char) (ver : Nat) (prog : List Nat) : Prop :=
+  hrp ≠ [] ∧ (∀ c ∈ hrp, hrpCharOk c = true) ∧ ver ≤ 16 ∧ (∀ b ∈ prog, b < 256) ∧
+  2 ≤ prog.length ∧ prog.length ≤ 40 ∧ (ver = 0 → prog.length = 20 ∨ prog.length = 32) ∧
+  hrp.length + 1 + (1 + (prog.length * 8 + 4) / 5) + 6 ≤ 90
+
+instance (hrp : List Char) (ver : Nat) (prog : List Nat) : Decidable (Allowed hrp ver prog) := by
+  unfold Allowed; infer_instance
+
+/-- the checksum constant `encode` uses for a witness version -/
+def specOf (ver : Nat) : Encoding := if ver = 0 then .bech32 else .bech32m
+
+theorem decode_of_raw (hrp addr hrpgot : List Char) (data : List Nat) (spec : Encoding)
+    (h : bech32Decode addr = some (hrpgot, data, spec)) :
+    decode hrp addr =
+      if hrpgot ≠ hrp then none
+      else match data with
+        | [] => none
+        | ver :: rest =>
+          match convertbits rest 5 8 pos8 false with
+          | none => none
+          | some decoded =>
+            if decoded.length < 2 ∨ decoded.length > 40 then none
+            else if ver > 16 then none
+            else if ver = 0 ∧ decoded.length ≠ 20 ∧ decoded.length ≠ 32 then none
+            else if (ver = 0 ∧ spec ≠ .bech32) ∨ (ver ≠ 0 ∧ spec ≠ .bech32m) then none
+            else some (ver, decoded) := by
+  simp only [decode, h]
+  rfl
+
+theorem segwit_forward (hrp : List Char) (ver : Nat) (prog R : List Nat) (h : Allowed hrp ver prog)
+    (hR : convertbits prog 8 5 pos5 true = some R) :
+    let s := hrp ++ ['1'] ++ ((ver :: R) ++ createChecksum hrp (ver :: R) (specOf ver)).map charD
+    decode hrp s = some (ver, prog) ∧ encode hrp ver prog = .ok (some s) := by
+  obtain ⟨hne, hh, hver, hprog, hl2, hl40, hv0, hlen⟩ := h
+  obtain ⟨R', hR', hRlt, hRlen, hback⟩ := convertbits_8_5_8 prog hprog
+  rw [hR] at hR'
+  injection hR' with hR'
+  subst hR'
+  have hdata : ∀ d ∈ ver :: R, d < 32 := by
+    intro d hd
+    rcases List.mem_cons.mp hd with rfl | hd
+    · omega
+    · exact hRlt d hd
+  have hlen' : hrp.length + 1 + (ver :: R).length + 6 ≤ 90 := by
+    rw [List.length_cons, hRlen]; omega
+  have hdec := bech32Decode_encode hrp (ver :: R) (specOf ver) hne hh hdata hlen'
+  have hdecode : decode hrp (hrp ++ ['1'] ++ ((ver :: R) ++ createChecksum hrp (ver :: R) (specOf ver)).map charD)
+      = some (ver, prog) := by
+    rw [decode_of_raw hrp _ _ _ _ hdec]
+    simp only [ne_eq, not_true_eq_false, if_false, hback]
+    have c1 : ¬ (prog.length < 2 ∨ prog.length > 40) := by omega
+    have c2 : ¬ (ver > 16) := by omega
+    have c3 : ¬ (ver = 0 ∧ prog.length ≠ 20 ∧ prog.length ≠ 32) := by
+      intro ⟨h0, h20, h32⟩
+      rcases hv0 h0 with h | h
+      · exact h20 h
+      · exact h32 h
+    have c4 : ¬ ((ver = 0 ∧ specOf ver ≠ .bech32) ∨ (ver ≠ 0 ∧ specOf ver ≠ .bech32m)) := by
+      unfold specOf
+      by_cases h0 : ver = 0 <;> simp [h0]
+    rw [if_neg c1, if_neg c2, if_neg c3, if_neg c4]
+  refine ⟨hdecode, ?_⟩
+  unfold encode
+  simp only [hR]
+  have henc := bech32Encode_eq hrp (ver :: R) (specOf ver) hdata
+  unfold specOf at henc hdecode
+  rw [henc]
+  simp only [hdecode]
+  simp [specOf]
+
+/-- **segwit_rt.** For every `(hrp, ver, prog)` that BIP173/BIP350 allow, `encode` returns a string `s` (lower case,
+at most 90 characters) and `decode(hrp, s) = (ver, prog)`. -/
+theorem C11_segwit_rt (hrp : List Char) (ver : Nat) (prog : List Nat) (h : Allowed hrp ver prog) :
+    ∃ s, encode hrp ver prog = .ok (some s) ∧ decode hrp s = some (ver, prog) := by
+  obtain ⟨R, hR, _⟩ := convertbits_8_5_8 prog h.2.2.2.1
+  have := segwit_forward hrp ver prog R h hR
+  exact ⟨_, this.2, this.1⟩
+
+/-- **segwit_rt, converse.** Whatever `decode(hrp, t)` accepts is allowed by BIP173/350 and `encode` of the result
+is `t` in lower case: the accepted strings are exactly the encodings (in either single case). -/
+theorem C11_segwit_rt_conv (hrp t : List Char) (v : Nat) (p : List Nat) (h : decode hrp t = some (v, p)) :
+    Allowed hrp v p ∧ encode hrp v p = .ok (some (lower t)) ∧ (lower t = t ∨ upper t = t) := by
+  cases hraw : bech32Decode t with
+  | none => unfold decode at h; rw [hraw] at h; cases h
+  | some r =>
+    obtain ⟨hrpgot, data, spec⟩ := r
+    rw [decode_of_raw hrp t hrpgot data spec hraw] at h
+    split at h
+    · cases h
+    · rename_i hhrp
+      have hhrp' : hrpgot = hrp := by
+        apply Classical.byContradiction; intro hn; exact hhrp hn
+      subst hhrp'
+      split at h
+      · cases h
+      · rename_i ver rest
+        split at h
+        · cases h
+        · rename_i decoded hconv
+          split at h
+          · cases h
+          · rename_i c1
+            split at h
+            · cases h
+            · rename_i c2
+              split at h
+              · cases h
+              · rename_i c3
+                split at h
+                · cases h
+                · rename_i c4
+                  injection h with h
+                  simp only [Prod.mk.injEq] at h
+                  obtain ⟨hv, hp⟩ := h
+                  subst hv; subst hp
+                  obtain ⟨_, hcase, hlen, hhl, hhok, hd, hlent, heq⟩ := bech32Decode_some t hrpgot _ spec hraw
+                  obtain ⟨hplt, hplen, hpmod, hpconv⟩ := convertbits_5_8_5 rest decoded hconv
+                  have hspec : spec = specOf ver := by
+                    unfold specOf
+                    by_cases h0 : ver = 0
+                    · simp only [h0, if_true]
+                      apply Classical.byContradiction
+                      intro hn; exact c4 (Or.inl ⟨h0, hn⟩)
+                    · simp only [h0, if_false]
+                      apply Classical.byContradiction
+                      intro hn; exact c4 (Or.inr ⟨h0, hn⟩)
+                  have hrestlen : (decoded.length * 8 + 4) / 5 = rest.length := by omega
+                  have hallowed : Allowed hrpgot ver decoded := by
+                    refine ⟨?_, hhok, by omega, hplt, by omega, by omega, ?_, ?_⟩
+                    · intro h0; rw [h0] at hhl; simp at hhl
+                    · intro h0
+                      apply Classical.byContradiction
+                      intro hn
+                      exact c3 ⟨h0, fun h => hn (Or.inl h), fun h => hn (Or.inr h)⟩
+                    · rw [hrestlen]
+                      simp only [List.length_cons] at hlent
+                      omega
+                  refine ⟨hallowed, ?_, hcase⟩
+                  have := (segwit_forward hrpgot ver decoded rest hallowed hpconv).2
+                  rw [this, heq, hspec]
+
+/-! ## rejection -/
+
+/-- **rejects_mixed_case.** A string with a character that `lower()` changes and one that `upper()` changes is refused. -/
+theorem C11_rejects_mixed_case (t : List Char) (h1 : ∃ c ∈ t, c.toLower ≠ c) (h2 : ∃ c ∈ t, c.toUpper ≠ c)
+    (hrp : List Char) : bech32Decode t = none ∧ decode hrp t = none := by
+  have hl : lower t ≠ t := by
+    intro h
+    obtain ⟨c, hc, hne⟩ := h1
+    exact hne ((map_eq_self _ t).mp h c hc)
+  have hu : upper t ≠ t := by
+    intro h
+    obtain ⟨c, hc, hne⟩ := h2
+    exact hne ((map_eq_self _ t).mp h c hc)
+  have : bech32Decode t = none := by
+    unfold bech32Decode
+    rw [if_pos (Or.inr ⟨hl, hu⟩)]
+  exact ⟨this, by unfold decode; rw [this]⟩
+
+/-- strings longer than 90 characters, and strings with a code point outside 33..126, are refused -/
+theorem C11_rejects_too_long_or_out_of_range (t : List Char)
+    (h : t.length > 90 ∨ ∃ c ∈ t, c.toNat < 33 ∨ c.toNat > 126) (hrp : List Char) :
+    bech32Decode t = none ∧ decode hrp t = none := by
+  have : bech32Decode t = none := by
+    cases hd : bech32Decode t with
+    | none => rfl
+    | some r =>
+      obtain ⟨hrp', data, spec⟩ := r
+      obtain ⟨hr, _, hlen, _⟩ := bech32Decode_some t hrp' data spec hd
+      rcases h with h | ⟨c, hc, h⟩
+      · omega
+      · have := hr c hc; omega
+  exact ⟨this, by unfold decode; rw [this]⟩
+
+/-- **rejects_wrong_const.** A well-formed Bech32 string whose first data symbol is 0 but whose checksum is the
+Bech32m one, or whose first symbol is not 0 but whose checksum is the Bech32 one, is refused by `decode`. -/
+theorem C11_rejects_wrong_const (hrp t hrpgot : List Char) (ver : Nat) (rest : List Nat) (spec : Encoding)
+    (hraw : bech32Decode t = some (hrpgot, ver :: rest, spec))
+    (h : (ver = 0 ∧ spec = .bech32m) ∨ (ver ≠ 0 ∧ spec = .bech32)) : decode hrp t = none := by
+  rw [decode_of_raw hrp t hrpgot _ spec hraw]
+  have hc : (ver = 0 ∧ spec ≠ .bech32) ∨ (ver ≠ 0 ∧ spec ≠ .bech32m) := by
+    rcases h with ⟨h0, hs⟩ | ⟨h0, hs⟩
+    · left; exact ⟨h0, by rw [hs]; decide⟩
+    · right; exact ⟨h0, by rw [hs]; decide⟩
+  dsimp only
+  repeat' split
+  all_goals first | rfl | (rename_i hn; exact absurd hc hn)
+
+/-- **rejects_bad_length.** A well-formed Bech32 string whose program is shorter than 2 or longer than 40 bytes,
+or is a version-0 program of a length other than 20 and 32, or whose version exceeds 16, is refused. -/
+theorem C11_rejects_bad_length (hrp t hrpgot : List Char) (ver : Nat) (rest prog : List Nat) (spec : Encoding)
+    (hraw : bech32Decode t = some (hrpgot, ver :: rest, spec))
+    (hconv : convertbits rest 5 8 pos8 false = some prog)
+    (h : prog.length < 2 ∨ prog.length > 40 ∨ ver > 16 ∨ (ver = 0 ∧ prog.length ≠ 20 ∧ prog.length ≠ 32)) :
+    decode hrp t = none := by
+  rw [decode_of_raw hrp t hrpgot _ spec hraw]
+  split
+  · rfl
+  · simp only [hconv]
+    by_cases c1 : prog.length < 2 ∨ prog.length > 40
+    · rw [if_pos c1]
+    · rw [if_neg c1]
+      by_cases c2 : ver > 16
+      · rw [if_pos c2]
+      · rw [if_neg c2]
+        have c3 : ver = 0 ∧ prog.length ≠ 20 ∧ prog.length ≠ 32 := by
+          rcases h with h | h | h | h
+          · exact absurd (Or.inl h) c1
+          · exact absurd (Or.inr h) c1
+          · exact absurd h c2
+          · exact h
+        rw [if_pos c3]
+
+/-- an address without any data symbol (only the checksum) is refused -/
+theorem C11_rejects_no_version (hrp t hrpgot : List Char) (spec : Encoding)
+    (hraw : bech32Decode t = some (hrpgot, [], spec)) : decode hrp t = none := by
+  rw [decode_of_raw hrp t hrpgot _ spec hraw]
+  split <;> rfl
+
+/-- **rejects_bad_padding.** If the 5-bit groups after the version leave 5 or more spare bits, or spare bits that
+are not all zero, `decode` refuses (`N` is the number the groups spell, `b` the number of spare bits). -/
+theorem C11_rejects_bad_padding (hrp t hrpgot : List Char) (ver : Nat) (rest : List Nat) (spec : Encoding)
+    (hraw : bech32Decode t = some (hrpgot, ver :: rest, spec))
+    (h : rest.length * 5 % 8 ≥ 5 ∨ Base58.ofDigits 32 rest % 2 ^ (rest.length * 5 % 8) ≠ 0) :
+    decode hrp t = none := by
+  rw [decode_of_raw hrp t hrpgot _ spec hraw]
+  have hd : ∀ x ∈ rest, x < 2 ^ 5 := by
+    have := (bech32Decode_some t hrpgot _ spec hraw).2.2.2.2.2.1
+    intro x hx; exact this x (List.mem_cons_of_mem _ hx)
+  obtain ⟨R, b, hb, hlen, _, _, hres⟩ := convertbits_nopad 5 8 pos8 rest hd
+  have hbeq : b = rest.length * 5 % 8 := by omega
+  have hcond : b ≥ 5 ∨ Base58.ofDigits (2 ^ 5) rest % 2 ^ b ≠ 0 := by
+    rw [hbeq]; exact h
+  rw [if_pos hcond] at hres
+  split
+  · rfl
+  · simp only [hres]
+
+/-! ## non-vacuity (evaluated) -/
+#guard decide (Allowed ['b', 'c'] 0 (List.replicate 20 7))
+#guard (encode ['b', 'c'] 0 (List.replicate 20 7)) matches .ok (some _)
+#guard (encode ['B', 'c'] 0 (List.replicate 20 7)) matches .ok none
+#guard (encode ['b', 'c'] 32 (List.replicate 20 7)) matches .error .indexError
+#guard (bech32Decode "A12UEL5L".toList) matches some (['a'], [], .bech32)
+#guard (bech32Decode "A1LQFN3A".toList) matches some (['a'], [], .bech32m)
+#guard (bech32Decode "a12UEL5L".toList) matches none
+#guard (decode ['b', 'c'] "BC1QW508D6QEJXTDG4Y5R3ZARVARY0C5XW7KV8F3T4".toList) matches some (0, _)
+#guard (decode ['b', 'c'] "bc1qw508d6qejxtdg4y5r3zarvary0c5xw7kemeawh".toList) matches none   -- v0 with the Bech32m constant
+#guard (decode ['b', 'c'] "bc1zw508d6qejxtdg4y5r3zarvaryvqyzf3du".toList) matches none        -- non-zero padding
+
+end Pycoin.Bech32
